@@ -354,6 +354,71 @@ def _inline_into(caller, cands, done, j):
     return n
 
 
+def _relabel_locals(x, mp):
+    if isinstance(x, dict):
+        out = {}
+        for k, v in x.items():
+            if k == "l" and isinstance(v, int) and not isinstance(v, bool):
+                out[k] = mp.get(v, v)
+            else:
+                out[k] = _relabel_locals(v, mp)
+        return out
+    if isinstance(x, list):
+        return [_relabel_locals(v, mp) for v in x]
+    return x
+
+
+def _canonical_param_order(j, baseline):
+    """A function of the pinned tree whose parameters were merely reordered (`bucket_path(key, cache)`): when its parameter types
+    are pairwise distinct and are a permutation of a pinned signature, the pinned order is restored — parameter locals relabelled
+    in its body, arguments reordered at every call site — so that rules which know a role function's parameters by position
+    (cache first) keep applying. Returns (facts, {path: permutation})."""
+    todo = {}
+    for b in j["bodies"]:
+        if b.get("def_kind") not in ("Fn", "AssocFn") or b.get("is_async") or b["path"] not in baseline or b.get("reachable"):
+            continue
+        cur = b.get("sig_inputs") or []
+        if len(cur) < 2 or len(set(cur)) != len(cur):
+            continue
+        sigs = baseline[b["path"]]
+        if any(sg.get("inputs") == cur for sg in sigs):
+            continue
+        for sg in sigs:
+            pin = sg.get("inputs") or []
+            if sorted(pin) == sorted(cur) and len(set(pin)) == len(pin):
+                todo[b["path"]] = [cur.index(t) for t in pin]      # pinned position k takes current parameter perm[k]
+                break
+    if not todo:
+        return j, {}
+    j = copy.deepcopy(j)
+    for b in j["bodies"]:
+        perm = todo.get(b["path"])
+        if perm is not None:
+            mp = {perm[k] + 1: k + 1 for k in range(len(perm))}      # current local -> pinned local
+            keep = {kk: b[kk] for kk in ("path", "parent")}
+            nb = _relabel_locals({kk: v for kk, v in b.items() if kk in ("blocks", "debug")}, mp)
+            b.update(nb)
+            locs = list(b["locals"])
+            for cur_l, pin_l in mp.items():
+                nl = copy.deepcopy(locs[cur_l])
+                nl["i"] = pin_l
+                b["locals"][pin_l] = nl
+            for kk in ("sig_inputs", "sig_input_heads"):
+                if isinstance(b.get(kk), list) and len(b[kk]) == len(perm):
+                    b[kk] = [b[kk][perm[k]] for k in range(len(perm))]
+            b.update(keep)
+        for blk in b["blocks"]:
+            t = blk["term"]
+            if t["k"] == "call":
+                cp = _callee_path(t)
+                pm = todo.get(cp)
+                if pm is not None and len(t.get("args", [])) == len(pm):
+                    t["args"] = [t["args"][pm[k]] for k in range(len(pm))]
+                    if isinstance(t.get("arg_tys"), list) and len(t["arg_tys"]) == len(pm):
+                        t["arg_tys"] = [t["arg_tys"][pm[k]] for k in range(len(pm))]
+    return j, todo
+
+
 def inline_facts(j, baseline=None):
     """Returns (facts dict with new helpers inlined, report dict). `j` is not modified."""
     if baseline is None:
@@ -361,6 +426,7 @@ def inline_facts(j, baseline=None):
     if baseline is None:
         return j, {"inlined": {}, "note": "no baseline: nothing inlined"}
     j, canon = _canonical_names(j, baseline)
+    j, perms = _canonical_param_order(j, baseline)
     cands, graph, has_children = _candidates(j, baseline)
     if not cands:
         if any(b.get("is_async") and b.get("def_kind") in ("Fn", "AssocFn") and b["path"] not in baseline and not b.get("reachable") for b in j["bodies"]):
